@@ -99,6 +99,7 @@ def mon_c03(k, domain, password, up_frames, wildcard=False, srv="srv"):
     authed = {}      # slot -> bool
     rawauthed = {}
     vack_in_interval = set()
+    all_challenges = []
     rebind_ok = set()      # slots for which a correct (raw) login arrived since the previous snapshot
     by_dgram = {}    # datagram bytes -> frame bytes
     for f, rec in up_frames.items():
@@ -232,6 +233,7 @@ def mon_c03(k, domain, password, up_frames, wildcard=False, srv="srv"):
                 if p[:4] == b"VACK" and len(p) >= 9:
                     uid = p[8]
                     ch[uid] = struct.unpack(">I", p[4:8])[0]
+                    all_challenges.append(ch[uid])
                     authed[uid] = False
                     rawauthed[uid] = False
                     vack_in_interval.add(uid)
@@ -332,6 +334,15 @@ def mon_c03(k, domain, password, up_frames, wildcard=False, srv="srv"):
             prev_rows = rows
             vack_in_interval.clear()
             rebind_ok.clear()
+    # "The current challenge" only means something if challenges differ: a login response seen on the wire for one session
+    # must not be the right answer for the next.  (32-bit random values: a repeat among a few dozen is a 1-in-10^7 event.)
+    st["c03_challenges_seen"] = len(all_challenges)
+    if len(all_challenges) >= 4:
+        from collections import Counter
+        val, cnt = Counter(all_challenges).most_common(1)[0]
+        if cnt >= 3:
+            viol.append(("C03:challenge-repeated", "the challenge 0x%08x was handed out %d times in %d version handshakes: a login response overheard once answers all of them"
+                         % (val, cnt, len(all_challenges)), {"time_us": 0, "challenges": ["%08x" % c for c in all_challenges[:12]]}))
     return viol, st, kinds
 
 
